@@ -1,4 +1,18 @@
-"""Per-property registry: Lean modules, obligations (property theorems + ties), harness."""
+"""Per-property registry.  Each tools/props/Cxx.py defines SPEC = {...}:
+
+  id            property id
+  modules       Lean modules to build for this property (Props + Tie modules)
+  theorems      [(module, fully.qualified.theorem)]  property theorems (obligations)
+  ties          [(module, fully.qualified.theorem)]  tie obligations (regenerated facts = model)
+  harness       one dict or a list of {pkg, test[, checklinkname, timeout, timeout_s]}: Go harness tests run in /repo/<pkg>
+  overlay       {virtual path under /repo: file under /verif/harness}
+  rule          how cases are generated and what counts as distinct / non-trivial
+  level_text / level_note / design_ref / technique / assumptions / trusted   (MANIFEST + evidence texts)
+  race          True if the thorough tier should also run the harness with -race
+"""
+import importlib
+import os
+import sys
 
 TRUSTED_BASE = [
     "Lean 4.33.0 kernel (leanchecker re-check in thorough tier); axioms allowed: propext, Classical.choice, Quot.sound",
@@ -7,71 +21,15 @@ TRUSTED_BASE = [
     "Lean compiler for sfdriver (differential runs only, never for theorems)",
 ]
 
-E = "Snowflake.Props.C09"
-PROPS = {
-    "C09": {
-        "id": "C09",
-        "modules": ["Snowflake.Props.C09", "Snowflake.Tie.Encap"],
-        "theorems": [
-            ("Snowflake.Props.C09", "Snowflake.Encap.C09.roundtrip"),
-            ("Snowflake.Props.C09", "Snowflake.Encap.C09.fragmentation_independent"),
-            ("Snowflake.Props.C09", "Snowflake.Encap.C09.roundtrip_fragmented"),
-            ("Snowflake.Props.C09", "Snowflake.Encap.C09.padding_exact"),
-            ("Snowflake.Props.C09", "Snowflake.Encap.C09.maxData_fits"),
-            ("Snowflake.Props.C09", "Snowflake.Encap.C09.maxData_within_one"),
-            ("Snowflake.Props.C09", "Snowflake.Encap.C09.pinned_zero_read_misparses"),
-            ("Snowflake.Props.C09", "Snowflake.Encap.C09.pinned_data_with_eof_loses_chunk"),
-        ],
-        "ties": [
-            ("Snowflake.Tie.Encap", "Snowflake.Tie.Encap.dataPrefix_tie"),
-            ("Snowflake.Tie.Encap", "Snowflake.Tie.Encap.paddingSwitch_tie"),
-            ("Snowflake.Tie.Encap", "Snowflake.Tie.Encap.paddingBufferLen_tie"),
-        ],
-        "level_text": "All clauses are kernel-checked theorems over the model of encapsulation.go: round trip for every item sequence, "
-                      "independence from every contract-respecting reader fragmentation (unbounded scripts), padding exact and invisible, "
-                      "size budget never exceeded. The encoder side of the model is regenerated from the Go source and proved equal to it; "
-                      "the decoder loop is tied by differential runs of the real ReadData against the compiled model.",
-        "level_note": "Trusted: Lean kernel; the translator for dataPrefixForLength / the WritePadding switch (int emitted over Nat); "
-                      "the hand-written model of ReadData's loop, io.ReadFull and io.CopyN (validated differentially, not verified); "
-                      "allocation bound = announced chunk length is read off the model, not measured.",
-        "design_ref": "DESIGN.md §5.9",
-        "harness": {"pkg": "common/encapsulation", "test": "TestVerifC09"},
-        "overlay": {"common/encapsulation/zz_verif_c09_test.go": "c09_encapsulation_test.go"},
-        "rule": "cases = prefix lengths, padding sizes, size budgets, byte streams (valid item sequences on every prefix boundary, "
-                "truncations, mutations, random bytes, non-minimal encodings) each read whole and through scripted fragmenting "
-                "readers (zero-length reads, data+EOF) and io.Pipe; a case is non-trivial when its stream/script is non-empty; "
-                "distinct = distinct (class, canonical case line)",
-        "trusted": ["Go stdlib modelled: io.ReadFull, io.CopyN(ioutil.Discard), io.Pipe zero-length writes"],
-        "assumptions": ["ReadData's reader obeys the io.Reader contract and eventually stops returning (0, nil)"],
-    },
-}
+HERE = os.path.dirname(os.path.abspath(__file__))
+sys.path.insert(0, HERE)
+PROPS = {}
+for fn in sorted(os.listdir(os.path.join(HERE, "props"))):
+    if fn.startswith("C") and fn.endswith(".py"):
+        mod = importlib.import_module("props." + fn[:-3])
+        PROPS[mod.SPEC["id"]] = mod.SPEC
 
-PROPS["C06"] = {
-    "id": "C06",
-    "modules": ["Snowflake.Props.C06", "Snowflake.Tie.NameMatcher"],
-    "theorems": [("Snowflake.Props.C06", "Snowflake.NameMatcher.C06." + t) for t in [
-        "superset_sound", "superset_sound_rules", "broker_check_sound", "broker_rejects_iff",
-        "proxy_accepts_only_member_and_wss", "empty_url_not_rejected", "proxy_rejects_outside"]],
-    "ties": [("Snowflake.Tie.NameMatcher", "Snowflake.Tie.NameMatcher." + t) for t in [
-        "new_tie", "isValidRule_tie", "isSupersetOf_tie", "isMember_tie", "proxyRejects_tie", "proxyPolls_check_precedes_offer"]],
-    "harness": [{"pkg": "common/namematcher", "test": "TestVerifC06Matcher"},
-                {"pkg": "broker", "test": "TestVerifC06Broker"}],
-    "overlay": {"common/namematcher/zz_verif_c06_test.go": "c06_namematcher_test.go",
-                "broker/zz_verif_c06_test.go": "c06_broker_test.go"},
-    "rule": "cases = (pattern, pattern, hostname) triples built to share suffixes (with/without ^ and $, empty, doubled anchors), "
-            "broker configurations (allowed, presumed, proxy pattern, legacy flag) through the real CheckProxyRelayPattern and "
-            "the real IPC.ProxyPolls; non-trivial = superset or membership holds / every broker case; distinct = distinct (class, case line)",
-    "level_text": "The superset-implies-membership law is a theorem for all matchers, patterns and hostnames; the broker check and the proxy's "
-                  "acceptance condition are theorems over definitions that are regenerated from the Go source (matcher functions and the "
-                  "runSession condition are translated and proved equal to the model by rfl); the ordering 'pattern check and return before "
-                  "RequestOffer' is a regenerated skeleton obligation; real matcher, CheckProxyRelayPattern and IPC.ProxyPolls are run "
-                  "against the model and the property oracle.",
-    "level_note": "Trusted: Lean kernel; translator (strings.HasPrefix/HasSuffix/TrimPrefix/TrimSuffix modelled on byte lists); net/url.Parse "
-                  "output (hostname, scheme) is an input to the model, and that the websocket dialer connects to the URL's host is not modelled; "
-                  "'never gives such a proxy a client' rests on the rejection preceding registration (skeleton tie + observed on the real IPC).",
-    "design_ref": "DESIGN.md §5.6",
-    "assumptions": ["net/url.Parse returns the hostname/scheme the dialer will use"],
-}
-
-NOT_APPLICABLE = {p: "check not built yet in this round (planned, see DESIGN.md §9); not claimed" for p in
-                  ["C01", "C02", "C03", "C04", "C05", "C07", "C08", "C10", "C11", "C12", "C13", "C14", "C15", "C16", "C17", "C18", "C19", "C20"]}
+ALL_IDS = ["C%02d" % i for i in range(1, 21)]
+NOT_APPLICABLE_REASONS = {}
+NOT_APPLICABLE = {p: NOT_APPLICABLE_REASONS.get(p, "check not built yet in this round (planned, see DESIGN.md §9); not claimed")
+                  for p in ALL_IDS if p not in PROPS}
